@@ -5,9 +5,13 @@ Driver of C12 (date arithmetic). One JSON request per line, batches inside a req
   {"op":"inverse","items":[[py,pm,pd,ey,em,ed],..],"impl":[[y,m,d]|null,..]}
         -> {"lag":["n/d",..],"model":[[y,m,d],..],"spec":[bool|null,..]}
   {"op":"intShift","items":[[y,m,d,k],..],"impl":[[y,m,d]|null,..]}
-        -> {"model":[[y,m,d],..],"spec":[bool|null,..]}
-  {"op":"devLag","items":[[py,pm,pd,ey,em,ed,"unit"],..],"impl":["n/d"|null,..]}
-        -> {"model":["n/d"|null,..],"spec":[bool|null,..]}   (null model: unit refused)
+        -> {"model":[[y,m,d],..],"spec":[bool|null,..],"day":[bool|null,..]}
+        spec = Spec.intShiftOk; day = Spec.intShiftDayOk (year, month AND day by the closed form) where the target month
+        is from 1970 on (null before: only month ends are determined there, finding D8)
+  {"op":"devLag","items":[[py,pm,pd,ey,em,ed,"unit"],..],"impl":["n/d"|null,..],"back":[[y,m,d]|null,..]}
+        -> {"model":["n/d"|null,..],"spec":[bool|null,..],"inverse":[bool|null,..]}   (null model: unit refused)
+        back (optional, month units) = add_months(period_end, the lag the implementation returned);
+        inverse = Spec.cellLagInverseOk where the model's law holds (evaluation date from 1970 on, or a month end)
   {"op":"devLagExt","items":[[py,pm,pd,ey,em,ed,"unit"],..],"impl":[[lag, back],..]}
         lag = ["fin","n/d"] | "inf" | "tdmax" | null (unit refused); back = add_months(pe, lag) as [y,m,d] | null
         -> {"model":[[lag, back],..],"spec":[bool|null,..]}   (calculateDevLagExt / addMonthsExt: the date.max
@@ -111,18 +115,24 @@ def handle (j : Json) : Except String Json := do
     let impl := optImpl j
     let mut model := #[]
     let mut spec := #[]
+    let mut day := #[]
     for i in [0:items.size] do
       let a ← items[i]!.getArr?
       let d ← dateAt a 0
       let k ← jInt? a[3]!
       model := model.push (addMonths d (k : Rat)).toJson
       spec := spec.push (← specOn (implAt impl i) fun r => do return Spec.intShiftOk d k (← Date.fromJson r))
-    return Json.mkObj [("model", Json.arr model), ("spec", Json.arr spec)]
+      day := day.push (← if 0 ≤ monthToId d + k && d.valid
+        then specOn (implAt impl i) fun r => do return Spec.intShiftDayOk d k (← Date.fromJson r)
+        else pure Json.null)
+    return Json.mkObj [("model", Json.arr model), ("spec", Json.arr spec), ("day", Json.arr day)]
   | "devLag" =>
     let items ← arr? j "items"
     let impl := optImpl j
+    let back := match arr? j "back" with | .ok a => some a | .error _ => none
     let mut model := #[]
     let mut spec := #[]
+    let mut inverse := #[]
     for i in [0:items.size] do
       let a ← items[i]!.getArr?
       let pe ← dateAt a 0
@@ -132,7 +142,11 @@ def handle (j : Json) : Except String Json := do
       | none =>
         model := model.push Json.null
         spec := spec.push Json.null
+        inverse := inverse.push Json.null
       | some un =>
+        inverse := inverse.push (← if un == .month && ev.valid && (1970 ≤ ev.y || ev.isMonthEnd)
+          then specOn (implAt back i) fun r => do return Spec.cellLagInverseOk ev (← Date.fromJson r)
+          else pure Json.null)
         let c : Cell := { ps := pe, pe := pe, ev := ev }
         model := model.push (ratToJson (c.devLag un))
         spec := spec.push (← specOn (implAt impl i) fun r => do
@@ -141,7 +155,7 @@ def handle (j : Json) : Except String Json := do
           | .month =>
             if pe.isMonthEnd && ev.isMonthEnd then return Spec.monthEndLagOk pe ev q else return true
           | _ => return q.den == 1 && Spec.dayLagOk pe ev q.num)
-    return Json.mkObj [("model", Json.arr model), ("spec", Json.arr spec)]
+    return Json.mkObj [("model", Json.arr model), ("spec", Json.arr spec), ("inverse", Json.arr inverse)]
   | "devLagExt" =>
     let items ← arr? j "items"
     let impl := optImpl j
@@ -218,7 +232,9 @@ def handle (j : Json) : Except String Json := do
           let ri ← Date.fromJson rj
           match ru with
           | .day => return Spec.dayDeltaOk d q' neg ri
-          | .month => return Spec.intShiftOk d (if neg then -q' else q') ri)
+          | .month =>
+            let k := if neg then -q' else q'
+            return Spec.intShiftOk d k ri && (!(0 ≤ monthToId d + k && d.valid) || Spec.intShiftDayOk d k ri))
     return Json.mkObj [("model", Json.arr model), ("spec", Json.arr spec)]
   | "enum" =>
     let kmin ← int? j "kmin"
